@@ -5,7 +5,7 @@
 EXTENDS Recv, Json, IOUtils, TLCExt
 Cases == JsonDeserialize(IOEnv.TRACE_FILE)
 VARIABLES cid, done
-Offset(m) == CASE m = "meth" -> 1 [] m = "other" -> 2 [] m = "deco" -> 3 [] m = "deco2" -> 7 [] m = "tree" -> 5 [] m = "glob" -> 6 [] m = "store" -> 9 [] OTHER -> 0
+Offset(m) == CASE m = "meth" -> 1 [] m = "other" -> 2 [] m = "deco" -> 3 [] m = "deco2" -> 7 [] m = "tree" -> 5 [] m = "glob" -> 6 [] m = "store" -> 9 [] m = "__call__" -> 11 [] OTHER -> 0
 ExpectedV(c, i) == IF c.method \in {"prop", "prop2"} THEN -2 ELSE 10 + (i - 1) + Offset(c.method)
 EventsOfCall(c, i) == SelectSeq(c.events, LAMBDA e : e.call = i)
 \* instances strictly below o in the tree, i.e. reached by the recursive calls of o.tree
@@ -32,7 +32,7 @@ Verdicts(c) ==
                IN (IF Len(evs) = want THEN {}
                    ELSE {<<IF Len(evs) > want THEN "WrongReceiverObserved" ELSE "ReceiverMissed",
                            IF Len(evs) = mwant THEN "mech" ELSE "other">>}) \cup
-                  (IF c.path \in {"enter", "external"} \/ \A k \in DOMAIN evs : (c.method \in {"prop", "prop2"} \/ c.path = "selffocus" \/ evs[k].v = ExpectedV(c, i))
+                  (IF c.path \in {"enter", "external"} \/ \A k \in DOMAIN evs : (c.method \in {"prop", "prop2"} \/ c.path \in {"selffocus", "callonly"} \/ evs[k].v = ExpectedV(c, i))
                                             /\ (c.target \in Classes \/ evs[k].self = (IF c.method = "tree" THEN c.target ELSE c.calls[i]))
                    THEN {} ELSE {<<"EventContent", "">>})
              : i \in DOMAIN c.calls }
